@@ -47,7 +47,7 @@ AI_OK_ENVS = [{}, {"CODEMODDER_AZURE_OPENAI_API_KEY": "", "CODEMODDER_AZURE_OPEN
               {"CODEMODDER_AZURE_LLAMA_API_KEY": "", "CODEMODDER_AZURE_LLAMA_ENDPOINT": ""}, {"CODEMODDER_OPENAI_API_KEY": ""},
               {"CODEMODDER_AZURE_OPENAI_API_KEY": ""}, {"CODEMODDER_AZURE_LLAMA_ENDPOINT": ""}]  # set-but-empty alone = unset
 RESULT_OPTS = ["--sarif", "--sonar-issues-json", "--sonar-hotspots-json", "--defectdojo-findings-json"]
-REPORT_FAULTS = ["enoent-parent", "eisdir", "open-eacces", "open-erofs", "open-enospc", "enospc-on-write", "short-write", "eio-on-write"]
+REPORT_FAULTS = ["enoent-parent", "eisdir", "open-eacces", "open-erofs", "open-enospc", "enospc-on-write", "short-write", "eio-on-write", "enospc-on-close"]
 
 SARIF_SEMGREP = {"version": "2.1.0", "runs": [{"tool": {"driver": {"name": "Semgrep OSS"}}, "results": []}]}
 SARIF_CODEQL = {"version": "2.1.0", "runs": [{"tool": {"driver": {"name": "CodeQL"}}, "results": []}]}
@@ -131,8 +131,8 @@ class C20(Check):
     level = "fault_enumeration"
     rule = ("every documented failure condition (terminal options; 10 invalid/conflicting/ambiguous argument shapes; "
             "8 half-configured AI-client environments (incl. set-but-empty variables); missing target; 4 missing result-file options; duplicate SARIF "
-            "tool; 8 report-write fault kinds: missing parent, directory, EACCES/EROFS/ENOSPC at open, ENOSPC/short "
-            "write/EIO at write) alone (exhaustive), then seeded pairs, plus completed runs; other options random; "
+            "tool; 9 report-write fault kinds: missing parent, directory, EACCES/EROFS/ENOSPC at open, ENOSPC/short "
+            "write/EIO at write, ENOSPC at close/flush) alone (exhaustive), then seeded pairs, plus completed runs; other options random; "
             "non-trivial = at least one condition applies or the run changed a file; distinct = by experiment digest")
     assumptions = [
         "process boundary simulated as main()'s contract: run(argv) return value or SystemExit code; an escaping exception = status 1",
